@@ -111,6 +111,7 @@ func init() {
 			}),
 			h("construct", "Full/Zeros/Ones/TensorOf hold exactly the requested values", []string{"done"}, shapeTier(0, 3, 3, 0, 4, 3, 0, nil)),
 			h("eye", "Eye(n) is the identity matrix", []string{"done"}, func(string) []Item { return items(map[string]int64{"maxn": 5}) }),
+			h("nelems", "NElems = product of Shape, and Shape = the defined shape, for the result of every kind of operation", []string{"done"}, func(string) []Item { return sItems("op", c08OpNames, items(map[string]int64{})) }),
 		},
 		Assumptions: []string{"element values are opaque solver reals; the assertions are term identities, hence value-independent",
 			"arguments are assumed valid per DESIGN Appendix A (rejection of invalid arguments is C09)"},
@@ -405,7 +406,7 @@ func init() {
 		Harnesses: []Harness{
 			{Name: "C13_lossgrad", Pkg: "zzh", Func: "H_C13_lossgrad", Reach: []string{"done"},
 				What:  "gradient of MSE/BCE/CE w.r.t. the prediction (tracked leaf, or q*r with the chain continued to q and r) vs the analytic derivative; 0 where clipped; finite at exactly 0 and 1",
-				Items: tiered(func() []Item { return lossItems(2, 2, []int64{0, 1}) }, func() []Item { return lossItems(3, 3, []int64{0, 1}) })},
+				Items: tiered(func() []Item { return lossItems(2, 2, []int64{0, 1, 2}) }, func() []Item { return lossItems(3, 3, []int64{0, 1, 2}) })},
 		},
 		Assumptions: []string{numericModel, "targets in [0,1]; BCE/CE predictions in [0,1] and apart from the two clipping bounds by more than 1e-200 (no float64 other than the bound lies within the library's 1e-240 tie tolerance)"},
 		Outside:     "batch sizes / class counts above 3; upstream computations other than an element-wise product",
@@ -570,17 +571,17 @@ func init() {
 			{Name: "C11_train", Pkg: "zzh", Func: "H_C11_train", Reach: []string{"done"},
 				What: "FC -> activation -> loss: inductive training step from arbitrary weights (forward, loss, BackPropagate, Update, ResetGradContext), new weights vs w - lr*dL/dw from closed-form references; post-state invariant; values abstracted and step repeated on the real post-update objects",
 				Items: tiered(func() []Item {
-					return mergeItems(combos(pwl, allLosses, map[string]int64{"maxb": 2, "maxf": 2, "maxo": 2, "steps": 2}),
-						combos(trans, allLosses, map[string]int64{"maxb": 1, "maxf": 2, "maxo": 2, "steps": 2}))
+					return mergeItems(combos(pwl, allLosses, map[string]int64{"maxb": 2, "maxf": 2, "maxo": 2, "steps": 2, "sharedinit": 0}),
+						combos(trans, allLosses, map[string]int64{"maxb": 1, "maxf": 2, "maxo": 2, "steps": 2, "sharedinit": 0}))
 				}, func() []Item {
-					return mergeItems(combos(pwl, allLosses, map[string]int64{"maxb": 3, "maxf": 3, "maxo": 3, "steps": 3}),
-						combos(trans, allLosses, map[string]int64{"maxb": 1, "maxf": 3, "maxo": 3, "steps": 3}),
-						combos([]string{"Sigmoid"}, []string{"MSE"}, map[string]int64{"maxb": 2, "maxf": 2, "maxo": 1, "steps": 2}))
+					return mergeItems(combos(pwl, allLosses, map[string]int64{"maxb": 3, "maxf": 3, "maxo": 3, "steps": 3, "sharedinit": 0}),
+						combos(trans, allLosses, map[string]int64{"maxb": 1, "maxf": 3, "maxo": 3, "steps": 3, "sharedinit": 0}),
+						combos([]string{"Sigmoid"}, []string{"MSE"}, map[string]int64{"maxb": 2, "maxf": 2, "maxo": 1, "steps": 2, "sharedinit": 0}))
 				})},
 			{Name: "C11_noreset", Pkg: "zzh", Func: "H_C11_noreset", Reach: []string{"done"},
 				What: "second step without ResetGradContext: Update returns an error and replaces nothing",
 				Items: func(string) []Item {
-					return combos([]string{"none", "Sigmoid", "Softmax"}, allLosses, map[string]int64{"maxb": 2, "maxf": 2, "maxo": 2})
+					return combos([]string{"none", "Sigmoid", "Softmax"}, allLosses, map[string]int64{"maxb": 2, "maxf": 2, "maxo": 2, "sharedinit": 0})
 				}},
 		},
 		Assumptions: []string{numericModel, "targets in [0,1]; Relu/LeakyRelu pre-activations apart from 0 and BCE/CE predictions apart from the clip bounds by more than 1e-200 (differentiable points)",
@@ -592,7 +593,7 @@ func init() {
 var c08OpNames = []string{
 	"Scale", "Pow", "Exp", "Log", "Sin", "Cos", "Tan", "Sinh", "Cosh", "Tanh",
 	"Transpose", "Reshape", "UnSqueeze", "Squeeze", "Flatten", "Broadcast", "Slice",
-	"ReshapeSame", "FlattenLast", "BroadcastSame", "SliceWhole", "PatchWhole",
+	"ReshapeSame", "FlattenLast", "BroadcastSame", "SliceWhole", "PatchWhole", "PatchFull",
 	"SumAlong", "MaxAlong", "MinAlong", "AvgAlong", "VarAlong", "StdAlong", "MeanAlong",
 	"Add", "Sub", "Mul", "Div", "ElMax", "ElMin", "Dot", "MatMul", "Patch", "Concat2", "Concat3",
 	"Eq", "Ne", "Gt", "Ge", "Lt", "Le",
@@ -696,11 +697,17 @@ func init() {
 				What:  "validator layer alone at full 64-bit width (bit-vector integers with wrap-around): At / Slice / Patch index validators, dimension sizes in [1,2^40], every index argument ANY int64",
 				Items: tiered(func() []Item { return sItems("fn", []string{"At", "Slice", "Patch"}, rankItems(0, 2, 0, nil)) }, func() []Item { return sItems("fn", []string{"At", "Slice", "Patch"}, rankItems(0, 3, 0, nil)) })},
 			{Name: "C09_val_dim", Pkg: "tensor/zzv", Func: "H_C09_val_dim", Reach: []string{"accepted", "rejected"}, BV: true,
-				What:  "reducer / Flatten / UnSqueeze / Squeeze / Transpose / InputDims validators with the dim argument ANY int64",
-				Items: func(string) []Item { return sItems("fn", []string{"Reduced", "Flatten", "UnSqueeze", "Squeeze", "Transpose", "InputDims"}, rankItems(0, 3, 0, nil)) }},
+				What: "reducer / Flatten / UnSqueeze / Squeeze / Transpose / InputDims validators with the dim argument ANY int64",
+				Items: func(string) []Item {
+					return sItems("fn", []string{"Reduced", "Flatten", "UnSqueeze", "Squeeze", "Transpose", "InputDims"}, rankItems(0, 3, 0, nil))
+				}},
 			{Name: "C09_val_shapes", Pkg: "tensor/zzv", Func: "H_C09_val_shapes", Reach: []string{"accepted", "rejected"}, BV: true,
-				What:  "Reshape (sizes <= 2^15 so products cannot wrap) / Broadcast / dims-match / Dot / MatMul shape validators over symbolic 64-bit sizes",
-				Items: tiered(func() []Item { return sItems("fn", []string{"Reshape", "Broadcast", "Match", "Dot", "MatMul"}, pairItems(0, 2, 0)) }, func() []Item { return sItems("fn", []string{"Reshape", "Broadcast", "Match", "Dot", "MatMul"}, pairItems(0, 3, 0)) })},
+				What: "Reshape (sizes <= 2^15 so products cannot wrap) / Broadcast / dims-match / Dot / MatMul shape validators over symbolic 64-bit sizes",
+				Items: tiered(func() []Item {
+					return sItems("fn", []string{"Reshape", "Broadcast", "Match", "Dot", "MatMul"}, pairItems(0, 2, 0))
+				}, func() []Item {
+					return sItems("fn", []string{"Reshape", "Broadcast", "Match", "Dot", "MatMul"}, pairItems(0, 3, 0))
+				})},
 		},
 		Assumptions: []string{"preconditions and result shapes per DESIGN Appendix A", "validator layer at full width: dimension sizes in [1,2^40] (a MaxInt64-sized dimension makes dims[i]+1 wrap, an input no caller can allocate); Reshape sizes <= 2^15", "foreign implementations of the Tensor interface are not exercised", numericModel},
 		Outside:     "live tensors above rank 3 / size 3, slices longer than 3, depth-4 nested data with lengths above 2; hangs are detected only as an exhausted step budget",
